@@ -519,6 +519,8 @@ class DataFileManager:
             str(f["name"]) for f in iceberg_schema.fields if f.get("required", False)
         }
 
+        types = {str(f["name"]): f.get("type") for f in iceberg_schema.fields}
+
         for i, record in enumerate(records):
             unknown = {str(k) for k in record.keys()} - allowed
             if unknown:
@@ -531,6 +533,47 @@ class DataFileManager:
                     raise ValueError(
                         f"Record {i} is missing required field '{name}' (or it is None)"
                     )
+            for name, value in record.items():
+                self._reject_lossy_value(i, str(name), types.get(str(name)), value)
+
+    @staticmethod
+    def _reject_lossy_value(index: int, name: str, type_str: Any, value: Any) -> None:
+        """Raise for a value pyarrow would accept by silently ALTERING it.
+
+        pyarrow raises on most incompatible values, but not on these:
+        a fractional number into an integer column is truncated (1.5 -> 1), a
+        finite number beyond the float32 range becomes inf in a 'float' column,
+        and a datetime loses its time of day in a 'date' column.
+        """
+        import math
+        import struct
+        from datetime import datetime as _datetime
+        from decimal import Decimal
+
+        if value is None or isinstance(value, bool) or not isinstance(type_str, str):
+            return
+        if type_str in ("int", "long") and isinstance(value, (float, Decimal)):
+            if not math.isfinite(value) or value != int(value):
+                raise ValueError(
+                    f"Record {index}: value {value!r} for {type_str} field '{name}' is not a whole number; "
+                    f"refusing to truncate it"
+                )
+        elif type_str == "float" and isinstance(value, (int, float)) and math.isfinite(value):
+            try:
+                overflows = math.isinf(struct.unpack("f", struct.pack("f", value))[0])
+            except OverflowError:
+                overflows = True
+            if overflows:
+                raise ValueError(
+                    f"Record {index}: value {value!r} does not fit the 32-bit 'float' field '{name}' "
+                    f"(it would be stored as infinity)"
+                )
+        elif type_str == "date" and isinstance(value, _datetime):
+            if (value.hour, value.minute, value.second, value.microsecond) != (0, 0, 0, 0):
+                raise ValueError(
+                    f"Record {index}: datetime {value!r} for date field '{name}' has a time of day; "
+                    f"refusing to drop it"
+                )
 
     def write_data_file(
         self,
